@@ -14,8 +14,11 @@ Two further semantics of the same model definitions carry the float side (sectio
 "the sum clause under the standard model" below): `XFA A` — finite rational | +inf | -inf | nan under ANY lawful
 rounded arithmetic `A` (`Core/RoundedOps.lean`) — for the clamp and the NaN analysis of the two bounded
 operators, and `FlNum M` — reals with `fl(a op b) = (a op b)(1 + d)` (`Lemmas/C10Fl.lean`) — for the sum clause.
-The level stays *partial*: that CPython's doubles and libm's `pow` satisfy the laws of these semantics is trusted
-(and probed by the harness), the ES mutations and the blend range clause have no rounded theorem.
+The ES mutations (`gauss_*_rounded`, `lognormal_*_rounded`, with the exact boundary of "positive strategies stay
+positive" and witnesses beyond it), the blend range clause (`blend_range_rounded`, `esblend_range_rounded`, explicit
+allowance) and unbounded SBX (`sbx_rounded*`) have rounded theorems as well.
+The level stays *partial*: that CPython's doubles and libm's `pow` / `exp` satisfy the laws of these semantics is
+trusted (and probed by the harness).
 -/
 import DeapModel.Core.RealOps
 import DeapModel.RealInst
@@ -24,6 +27,8 @@ import DeapModel.Lemmas.C10Real
 import DeapModel.Core.RoundedOps
 import DeapModel.Lemmas.C10Rounded
 import DeapModel.Lemmas.C10Fl
+import DeapModel.Lemmas.C10FlRange
+import DeapModel.Lemmas.C10Es
 import Mathlib.Analysis.SpecialFunctions.Pow.Real
 import Mathlib.Tactic.Linarith
 import Mathlib.Tactic.NormNum
@@ -750,6 +755,98 @@ theorem esblend_sum_rounded (M : FlModel) (hu : M.u ≤ 1 / 8) (ind1 ind2 : Ind 
 
 example : infl64.u ≤ 1 / 8 := infl64_u
 
+/-- `cxBlend` in floating-point arithmetic, the range clause: for `alpha ≥ 0` and draws in `[0, 1)` both children lie
+in the parental interval widened by `alpha` times its width PLUS the rounding allowance
+`E = (7/2 u (2 + alpha + Eg) + Eg)(|x1| + |x2|) + 9/4 nu`, `Eg = 6 u (1 + 2 alpha) + 4 nu` (`RealOps.blendRangeErr`;
+binary64, `alpha ≤ 2`: `E < 45 * 2^-53 * (|x1| + |x2|)`), on each side. -/
+theorem blend_range_rounded (M : FlModel) (hu : M.u ≤ 1 / 8) (ind1 ind2 : Ind (FlNum M)) (alpha : FlNum M)
+    (rs : List (FlNum M)) (o1 o2 : Ind (FlNum M)) (rest : List (FlNum M))
+    (ha : 0 ≤ alpha.val) (hr : ∀ r ∈ rs, 0 ≤ r.val ∧ r.val < 1)
+    (hrun : cxBlend ind1 ind2 alpha rs = .ok (o1, o2, rest)) :
+    ∀ (i : Nat) x1 x2 y1 y2, ind1.genes[i]? = some x1 → ind2.genes[i]? = some x2 →
+      o1.genes[i]? = some y1 → o2.genes[i]? = some y2 →
+      let E := blendRangeErr M.u M.nu alpha.val (|x1.val| + |x2.val|)
+      (min x1.val x2.val - alpha.val * |x1.val - x2.val| - E ≤ y1.val ∧
+        y1.val ≤ max x1.val x2.val + alpha.val * |x1.val - x2.val| + E) ∧
+      (min x1.val x2.val - alpha.val * |x1.val - x2.val| - E ≤ y2.val ∧
+        y2.val ≤ max x1.val x2.val + alpha.val * |x1.val - x2.val| + E) := by
+  obtain ⟨c1, c2, hl, rfl, rfl⟩ := cxBlend_ok hrun
+  obtain ⟨_, _, h3, _, _⟩ := pairLoop_spec _ _ _ _ _ _ _ hl
+  intro i x1 x2 y1 y2 hx1 hx2 hc hd
+  obtain ⟨r, hmem, rfl, rfl⟩ := h3 i x1 x2 y1 y2 hx1 hx2 hc hd
+  exact blendPair_range_fl M hu alpha x1 x2 r ha (hr r hmem).1 (hr r hmem).2.le
+
+example : infl64.u ≤ 1 / 8 ∧ (0 : ℝ) ≤ (⟨1 / 2⟩ : FlNum infl64).val ∧
+    (∀ r ∈ ([⟨1 / 2⟩, ⟨0⟩] : List (FlNum infl64)), 0 ≤ r.val ∧ r.val < 1) ∧
+    ∃ out, cxBlend (⟨1, [⟨0⟩, ⟨1⟩], 0, []⟩ : Ind (FlNum infl64)) ⟨2, [⟨2⟩, ⟨4⟩], 0, []⟩ ⟨1 / 2⟩ [⟨1 / 2⟩, ⟨0⟩]
+      = .ok out := by
+  refine ⟨infl64_u, by norm_num, ?_, ?_⟩
+  · intro r hr
+    simp only [List.mem_cons, List.not_mem_nil, or_false] at hr
+    rcases hr with rfl | rfl <;> norm_num
+  · obtain ⟨⟨c1, c2, rest⟩, ho⟩ := pairLoop_total (blendPair (⟨1 / 2⟩ : FlNum infl64)) [⟨0⟩, ⟨1⟩] [⟨2⟩, ⟨4⟩]
+      [⟨1 / 2⟩, ⟨0⟩] (by simp)
+    exact ⟨_, by simp only [cxBlend, ho]; rfl⟩
+
+/-- `cxESBlend` in floating-point arithmetic, the range clause: the same allowance at every locus, for the genes and
+for the strategies. -/
+theorem esblend_range_rounded (M : FlModel) (hu : M.u ≤ 1 / 8) (ind1 ind2 : Ind (FlNum M)) (alpha : FlNum M)
+    (rs : List (FlNum M)) (o1 o2 : Ind (FlNum M)) (rest : List (FlNum M))
+    (ha : 0 ≤ alpha.val) (hr : ∀ r ∈ rs, 0 ≤ r.val ∧ r.val < 1)
+    (hrun : cxESBlend ind1 ind2 alpha rs = .ok (o1, o2, rest)) :
+    ∀ (i : Nat) x1 s1 x2 s2 y1 u1 y2 u2, ind1.genes[i]? = some x1 → ind1.strategy[i]? = some s1 →
+      ind2.genes[i]? = some x2 → ind2.strategy[i]? = some s2 →
+      o1.genes[i]? = some y1 → o1.strategy[i]? = some u1 → o2.genes[i]? = some y2 → o2.strategy[i]? = some u2 →
+      let E := blendRangeErr M.u M.nu alpha.val (|x1.val| + |x2.val|)
+      let F := blendRangeErr M.u M.nu alpha.val (|s1.val| + |s2.val|)
+      ((min x1.val x2.val - alpha.val * |x1.val - x2.val| - E ≤ y1.val ∧
+         y1.val ≤ max x1.val x2.val + alpha.val * |x1.val - x2.val| + E) ∧
+       (min x1.val x2.val - alpha.val * |x1.val - x2.val| - E ≤ y2.val ∧
+         y2.val ≤ max x1.val x2.val + alpha.val * |x1.val - x2.val| + E)) ∧
+      ((min s1.val s2.val - alpha.val * |s1.val - s2.val| - F ≤ u1.val ∧
+         u1.val ≤ max s1.val s2.val + alpha.val * |s1.val - s2.val| + F) ∧
+       (min s1.val s2.val - alpha.val * |s1.val - s2.val| - F ≤ u2.val ∧
+         u2.val ≤ max s1.val s2.val + alpha.val * |s1.val - s2.val| + F)) := by
+  obtain ⟨c1, t1, c2, t2, hl, rfl, rfl⟩ := cxESBlend_ok hrun
+  obtain ⟨_, h2⟩ := cxESBlendLoop_spec _ _ _ _ _ _ _ _ _ _ _ hl
+  intro i x1 s1 x2 s2 y1 u1 y2 u2 a1 a2 a3 a4 a5 a6 a7 a8
+  obtain ⟨r, hrm, q, hqm, rfl, rfl, rfl, rfl⟩ := h2 i x1 s1 x2 s2 y1 u1 y2 u2 a1 a2 a3 a4 a5 a6 a7 a8
+  exact ⟨blendPair_range_fl M hu alpha x1 x2 r ha (hr r hrm).1 (hr r hrm).2.le,
+    blendPair_range_fl M hu alpha s1 s2 q ha (hr q hqm).1 (hr q hqm).2.le⟩
+
+example : infl64.u ≤ 1 / 8 ∧ (0 : ℝ) ≤ (⟨2⟩ : FlNum infl64).val ∧
+    (∀ r ∈ ([⟨1 / 2⟩, ⟨0⟩] : List (FlNum infl64)), 0 ≤ r.val ∧ r.val < 1) := by
+  refine ⟨infl64_u, by norm_num, ?_⟩
+  intro r hr
+  simp only [List.mem_cons, List.not_mem_nil, or_false] at hr
+  rcases hr with rfl | rfl <;> norm_num
+
+/-- the allowance of `blend_range_rounded` at the constants of binary64 (`u = 2^-53`, `nu = 2^-1075`) and
+`alpha ≤ 2` is below `45 u (|x1| + |x2|) + 3 nu (1 + |x1| + |x2|)` -/
+theorem blendRangeErr_binary64 (alpha X : ℝ) (ha0 : 0 ≤ alpha) (ha2 : alpha ≤ 2) (hX : 0 ≤ X) :
+    blendRangeErr ((2 : ℝ) ^ (-53 : ℤ)) ((2 : ℝ) ^ (-1075 : ℤ)) alpha X
+      ≤ 45 * (2 : ℝ) ^ (-53 : ℤ) * X + 5 * (2 : ℝ) ^ (-1075 : ℤ) * (1 + X) := by
+  have hu0 : (0 : ℝ) < (2 : ℝ) ^ (-53 : ℤ) := by positivity
+  have hn0 : (0 : ℝ) < (2 : ℝ) ^ (-1075 : ℤ) := by positivity
+  have hu : (2 : ℝ) ^ (-53 : ℤ) ≤ 1 / 1000 := by
+    have : (2 : ℝ) ^ (-53 : ℤ) ≤ (2 : ℝ) ^ (-10 : ℤ) := zpow_le_zpow_right₀ (by norm_num) (by norm_num)
+    refine le_trans this ?_
+    norm_num
+  have hn : (2 : ℝ) ^ (-1075 : ℤ) ≤ (2 : ℝ) ^ (-53 : ℤ) := zpow_le_zpow_right₀ (by norm_num) (by norm_num)
+  generalize (2 : ℝ) ^ (-53 : ℤ) = u at *
+  generalize (2 : ℝ) ^ (-1075 : ℤ) = nu at *
+  unfold blendRangeErr gammaErr
+  have hg : 6 * u * (1 + 2 * alpha) + 4 * nu ≤ 30 * u + 4 * nu := by nlinarith
+  have hg0 : 0 ≤ 6 * u * (1 + 2 * alpha) + 4 * nu := by positivity
+  have h1 : 7 / 2 * u * (2 + alpha + (6 * u * (1 + 2 * alpha) + 4 * nu)) ≤ 7 / 2 * u * (4 + 34 / 1000) := by
+    apply mul_le_mul_of_nonneg_left _ (by positivity)
+    nlinarith
+  have h2 : 7 / 2 * u * (2 + alpha + (6 * u * (1 + 2 * alpha) + 4 * nu)) + (6 * u * (1 + 2 * alpha) + 4 * nu)
+      ≤ 45 * u + 4 * nu := by nlinarith
+  nlinarith [mul_le_mul_of_nonneg_right h2 hX]
+
+example : (0 : ℝ) ≤ 2 ∧ (2 : ℝ) ≤ 2 ∧ (0 : ℝ) ≤ 3 := by norm_num
+
 /-- `cxSimulatedBinary` in floating-point arithmetic: at every locus the sum of the two children differs from the
 sum of the two parents by at most `5 u (|x1| + |x2|) (1 + |beta|) + 5 nu`, where `beta` is the spread factor the
 code computed from one draw `r` of the tape. -/
@@ -879,6 +976,299 @@ theorem lognormal_welldefined (size : Nat) (h : 0 < size) :
   logn_divisors h
 
 example : 0 < 3 := by decide
+
+/-! ## unbounded simulated binary crossover under the rounded semantics -/
+
+open RoundedOps in
+/-- One locus of `cxSimulatedBinary` (:279-285) in ANY lawful arithmetic: `eta ≥ 0` with `eta + 1` finite, the draw
+in `[0, top]`, finite parents whose magnitudes leave room for the spread (`SbxCaps`: representable caps `C ≥ 1 + beta_max
+= 1 + 1/(2 - 2 top)` and `P ≥ C * max(|x1|, |x2|)` with `2 P ≤ omega`; binary64: `C = 2^53`, genes up to `4.9e291`):
+the divisor `2(1 - rand)` is not zero, the base of `beta **= 1/(eta+1)` is not negative, no power or product
+overflows, no `inf - inf` arises, and both children are finite numbers. -/
+theorem sbx_rounded_locus (A : Arith) (hA : A.Lawful) (eta x1 x2 rand C P : Rat) (hc : SbxCaps A eta x1 x2 C P)
+    (hr0 : 0 ≤ rand) (hr1 : rand ≤ A.top) :
+    FinIn (sbxBeta (⟨.fin eta⟩ : XFA A) ⟨.fin rand⟩).val 0 (C - 1) ∧
+    FinIn (sbxPair (⟨.fin eta⟩ : XFA A) ⟨.fin x1⟩ ⟨.fin x2⟩ ⟨.fin rand⟩).1.val (-A.omega) A.omega ∧
+    FinIn (sbxPair (⟨.fin eta⟩ : XFA A) ⟨.fin x1⟩ ⟨.fin x2⟩ ⟨.fin rand⟩).2.val (-A.omega) A.omega :=
+  ⟨sbxBeta_ok hA hc hr0 hr1, sbxPair_rounded hA hc hr0 hr1⟩
+
+open RoundedOps in
+example : toy.Lawful ∧ SbxCaps toy 20 (-3) 50 (2 ^ 53) (2 ^ 59) ∧ (0 : Rat) ≤ 1 - 1 / 2 ^ 53 ∧
+    (1 - 1 / 2 ^ 53 : Rat) ≤ toy.top := by
+  refine ⟨toy_lawful, ?_, by norm_num, by norm_num [toy]⟩
+  exact {
+    eta0 := by norm_num
+    eta1 := by norm_num [toy]
+    rep_htop := by show toyRep _ = true; norm_num [toy, toyRep]
+    rep_B := by show toyRep _ = true; norm_num [toy, toyRep]
+    repC := by show toyRep (2 ^ 53) = true; norm_num [toyRep]
+    repC' := by show toyRep (-2 ^ 53) = true; norm_num [toyRep]
+    C2 := by norm_num
+    CB := by norm_num [toy]
+    repP := by show toyRep (2 ^ 59) = true; norm_num [toyRep]
+    repP' := by show toyRep (-2 ^ 59) = true; norm_num [toyRep]
+    P1 := by rw [abs_of_neg (by norm_num)]; norm_num
+    P2 := by rw [abs_of_pos (by norm_num)]; norm_num
+    Pom := by norm_num [toy] }
+
+open RoundedOps in
+/-- `cxSimulatedBinary` on whole individuals in ANY lawful arithmetic: if at every locus the two parents are finite
+numbers satisfying `SbxCaps` (for caps `C`, `P` common to all loci) and the draws lie in `[0, top]`, then at every
+locus both children are finite numbers — for floats too, not only over the reals. -/
+theorem sbx_rounded (A : Arith) (hA : A.Lawful) (ind1 ind2 : Ind (XFA A)) (eta C P : Rat) (rs : List (XFA A))
+    (o1 o2 : Ind (XFA A)) (rest : List (XFA A))
+    (hmag : ∀ (i : Nat) x1 x2, ind1.genes[i]? = some x1 → ind2.genes[i]? = some x2 →
+      ∃ p q : Rat, x1 = ⟨.fin p⟩ ∧ x2 = ⟨.fin q⟩ ∧ SbxCaps A eta p q C P)
+    (hr : DrawsTop A rs)
+    (hrun : cxSimulatedBinary ind1 ind2 ⟨.fin eta⟩ rs = .ok (o1, o2, rest)) :
+    ∀ (i : Nat) x1 x2 y1 y2, ind1.genes[i]? = some x1 → ind2.genes[i]? = some x2 →
+      o1.genes[i]? = some y1 → o2.genes[i]? = some y2 →
+      FinIn y1.val (-A.omega) A.omega ∧ FinIn y2.val (-A.omega) A.omega := by
+  obtain ⟨c1, c2, hl, rfl, rfl⟩ := cxSimulatedBinary_ok hrun
+  obtain ⟨_, _, h3, _, _⟩ := pairLoop_spec _ _ _ _ _ _ _ hl
+  intro i x1 x2 y1 y2 ha hb hc hd
+  obtain ⟨r, hmem, rfl, rfl⟩ := h3 i x1 x2 y1 y2 ha hb hc hd
+  obtain ⟨p, q, rfl, rfl, hcap⟩ := hmag i x1 x2 ha hb
+  obtain ⟨t, rfl, t0, t1⟩ := hr r hmem
+  exact sbxPair_rounded hA hcap t0 t1
+
+open RoundedOps in
+example : toy.Lawful ∧ DrawsTop toy [⟨.fin (1 / 4)⟩, ⟨.fin (1 - 1 / 2 ^ 53)⟩] := by
+  refine ⟨toy_lawful, ?_⟩
+  intro r hr
+  simp only [List.mem_cons, List.not_mem_nil, or_false] at hr
+  rcases hr with rfl | rfl
+  · exact ⟨_, rfl, by norm_num, by norm_num [toy]⟩
+  · exact ⟨_, rfl, by norm_num, by norm_num [toy]⟩
+
+/-! ## the ES mutations under the rounded semantics -/
+
+open RoundedOps in
+/-- `mutGaussian` keeps the length — in the rounded semantics too (any arithmetic). -/
+theorem gauss_len_rounded (A : Arith) (ind : Ind (XFA A)) (mu sigma : Bound (XFA A)) (indpb : XFA A)
+    (rs gs : List (XFA A)) (o : Ind (XFA A)) (rr gr : List (XFA A))
+    (hrun : mutGaussian ind mu sigma indpb rs gs = .ok (o, rr, gr)) :
+    o.genes.length = ind.genes.length := by
+  obtain ⟨m, s, ys, _, _, hl, rfl⟩ := mutGaussian_ok hrun
+  exact (gaussLoop_spec _ _ _ _ _ _ _ _ _ hl).1
+
+open RoundedOps in
+/-- `mutGaussian` with `indpb = 0` (the float `0.0`, or the int `0`) leaves the individual untouched in the rounded
+semantics, including the decision: `random.random() < 0.0` is evaluated as a float comparison and is false for every
+draw that is a finite number `≥ 0`. -/
+theorem gauss_indpb0_rounded (A : Arith) (ind : Ind (XFA A)) (mu sigma : Bound (XFA A))
+    (rs gs : List (XFA A)) (o : Ind (XFA A)) (rr gr : List (XFA A)) (hr : DrawsUnit A rs)
+    (hrun : mutGaussian ind mu sigma ⟨.fin 0⟩ rs gs = .ok (o, rr, gr)) :
+    o = ind := by
+  obtain ⟨m, s, ys, _, _, hl, rfl⟩ := mutGaussian_ok hrun
+  rw [gaussLoop_id _ (not_lt_zero_of_unit hr) hl]
+
+open RoundedOps in
+example : DrawsUnit toy [⟨.fin (1 / 4)⟩, ⟨.fin 0⟩] ∧
+    ∃ out, mutGaussian (⟨1, [⟨.fin 0⟩, ⟨.fin (1 / 2)⟩], 0, []⟩ : Ind (XFA toy)) (.scalar ⟨.fin 0⟩) (.scalar ⟨.fin 1⟩)
+      ⟨.fin 0⟩ [⟨.fin (1 / 4)⟩, ⟨.fin 0⟩] [⟨.fin (-3)⟩, ⟨.fin 5⟩] = .ok out := by
+  refine ⟨?_, ?_⟩
+  · intro r hr
+    simp only [List.mem_cons, List.not_mem_nil, or_false] at hr
+    rcases hr with rfl | rfl
+    · exact ⟨_, rfl, by norm_num, by norm_num⟩
+    · exact ⟨_, rfl, by norm_num, by norm_num⟩
+  · obtain ⟨⟨ys, rr, gr⟩, ho⟩ := gaussLoop_total (⟨.fin 0⟩ : XFA toy) [⟨.fin 0⟩, ⟨.fin (1 / 2)⟩]
+      (List.replicate 2 ⟨.fin 0⟩) (List.replicate 2 ⟨.fin 1⟩) [⟨.fin (1 / 4)⟩, ⟨.fin 0⟩] [⟨.fin (-3)⟩, ⟨.fin 5⟩]
+      (by simp) (by simp)
+    exact ⟨_, by simp only [mutGaussian, Bound.expand, List.length_cons, List.length_nil]; rw [ho]⟩
+
+open RoundedOps in
+/-- `mutESLogNormal` keeps the lengths in the rounded semantics (any arithmetic). -/
+theorem lognormal_len_rounded (A : Arith) (ind : Ind (XFA A)) (c indpb : XFA A) (rs gs : List (XFA A))
+    (o : Ind (XFA A)) (rr gr : List (XFA A)) (hrun : mutESLogNormal ind c indpb rs gs = .ok (o, rr, gr)) :
+    o.genes.length = ind.genes.length ∧ o.strategy.length = ind.strategy.length := by
+  obtain ⟨_, n, gs', ys, ts, _, hl, rfl⟩ := mutESLogNormal_ok hrun
+  obtain ⟨h1, h2, _⟩ := lognLoop_spec _ _ _ _ _ _ _ _ _ _ _ hl
+  exact ⟨h1, h2⟩
+
+open RoundedOps in
+/-- `mutESLogNormal` with `indpb = 0` leaves the individual and its strategy untouched in the rounded semantics
+(whatever `c` is, also when `t`, `t0` come out infinite or `nan`: they are not used). -/
+theorem lognormal_indpb0_rounded (A : Arith) (ind : Ind (XFA A)) (c : XFA A) (rs gs : List (XFA A))
+    (o : Ind (XFA A)) (rr gr : List (XFA A)) (hr : DrawsUnit A rs)
+    (hrun : mutESLogNormal ind c ⟨.fin 0⟩ rs gs = .ok (o, rr, gr)) :
+    o = ind := by
+  obtain ⟨_, n, gs', ys, ts, _, hl, rfl⟩ := mutESLogNormal_ok hrun
+  obtain ⟨e1, e2⟩ := lognLoop_id _ _ _ (not_lt_zero_of_unit hr) hl
+  rw [e1, e2]
+
+open RoundedOps in
+example : DrawsUnit toy [⟨.fin (1 / 4)⟩, ⟨.fin 0⟩] := by
+  intro r hr
+  simp only [List.mem_cons, List.not_mem_nil, or_false] at hr
+  rcases hr with rfl | rfl
+  · exact ⟨_, rfl, by norm_num, by norm_num⟩
+  · exact ⟨_, rfl, by norm_num, by norm_num⟩
+
+open RoundedOps in
+/-- an arithmetic with a lawful `exp` exists (the toy format with a step-function exponential) -/
+theorem lawful_exp_exists : ∃ A : Arith, A.Lawful ∧ A.LawfulExp := ⟨toy, toy_lawful, toy_lawfulExp⟩
+
+open RoundedOps in
+/-- One mutated locus of `mutESLogNormal` (:240 `strategy *= math.exp(t0_n + t * random.gauss(0, 1))`) in ANY lawful
+arithmetic with a lawful `exp`: if the exponent argument the code computed is the finite number `a` and the
+decidable magnitude hypothesis `lognMag` holds for the strategy `s` and some `k` — `s > 0`, `a ≤ expmax` (binary64:
+709), `k ≤ kmax` (1074), `-0.693 k ≤ a`, `s * 2^-k ≥ tiny` (2^-1074) — then no exception is raised and the new strategy
+value is strictly positive: a finite number `≥ tiny`, or `+inf` when the product overflows. -/
+theorem lognormal_pos_rounded_locus (A : Arith) (hA : A.Lawful) (hE : A.LawfulExp) (s a : Rat) (k : Nat)
+    (hm : lognMag A.toMag s a k = true) (t0n t z : XFA A) (harg : (t0n + t * z).val = .fin a) :
+    (lognSigma (⟨.fin s⟩ : XFA A) t0n t z).val = .pinf ∨
+      ∃ q, (lognSigma (⟨.fin s⟩ : XFA A) t0n t z).val = .fin q ∧ A.tiny ≤ q ∧ 0 < q := by
+  rcases lognSigma_rounded hA hE hm t0n t z harg with h | ⟨q, h, hq⟩
+  · exact Or.inl h
+  · exact Or.inr ⟨q, h, hq, lt_of_lt_of_le hE.tiny_pos hq⟩
+
+open RoundedOps in
+example : toy.Lawful ∧ toy.LawfulExp ∧ lognMag toy.toMag 1 (-3) 5 = true ∧
+    ((⟨.fin (-1)⟩ : XFA toy) + ⟨.fin 2⟩ * ⟨.fin (-1)⟩).val = .fin (-3) := by
+  refine ⟨toy_lawful, toy_lawfulExp, by norm_num [lognMag, toy, ln2lo], ?_⟩
+  have e1 : toy.mul (.fin 2) (.fin (-1)) = .fin (-2) := by show toyRnd (2 * -1) = _; norm_num [toyRnd]
+  have e2 : toy.add (.fin (-1)) (.fin (-2)) = .fin (-3) := by show toyRnd (-1 + -2) = _; norm_num [toyRnd]
+  show toy.add (.fin (-1)) (toy.mul (.fin 2) (.fin (-1))) = _
+  rw [e1, e2]
+
+/- the hypothesis at the magnitudes of binary64: the statement's domain and the learning rates in use satisfy it
+(strategy 1e-6, argument -600: `k = 866`); a subnormal strategy, an argument below `-745` or above `709` do not -/
+set_option exponentiation.threshold 3000 in
+open RoundedOps in
+example : lognMag binary64 (1 / 10 ^ 6) (-600) 866 = true ∧ lognMag binary64 1 (-744) 1074 = true ∧
+    lognMag binary64 1 (-746) 1077 = false ∧ lognMag binary64 (1 / 2 ^ 1074) (-1) 2 = false ∧
+    lognMag binary64 1 710 0 = false := by
+  refine ⟨?_, ?_, ?_, ?_, ?_⟩ <;> norm_num [lognMag, binary64, ln2lo]
+
+open RoundedOps in
+/-- `mutESLogNormal` on a whole individual in ANY lawful arithmetic with a lawful `exp`: if every strategy value is a
+finite positive number and, for every strategy value `s` and every gauss draw `z` after the first, the exponent
+argument `t0 * n + t * z` as the code computes it is a finite number `a` with `lognMag s a k` for some `k`, then every
+strategy value that comes out is strictly positive (`0 < u` as the arithmetic compares). -/
+theorem lognormal_pos_rounded (A : Arith) (hA : A.Lawful) (hE : A.LawfulExp) (ind : Ind (XFA A)) (c indpb : XFA A)
+    (rs gs : List (XFA A)) (o : Ind (XFA A)) (rr gr : List (XFA A))
+    (hpos : ∀ s ∈ ind.strategy, ∃ q : Rat, s = ⟨.fin q⟩ ∧ 0 < q)
+    (hmag : ∀ n gs', gs = n :: gs' → ∀ s ∈ ind.strategy, ∀ z ∈ gs', ∃ (q a : Rat) (k : Nat), s = ⟨.fin q⟩ ∧
+      (lognT0 c ind.genes.length * n + lognT c ind.genes.length * z).val = .fin a ∧
+      lognMag A.toMag q a k = true)
+    (hrun : mutESLogNormal ind c indpb rs gs = .ok (o, rr, gr)) :
+    ∀ u ∈ o.strategy, XF.lt (.fin 0) u.val = true := by
+  obtain ⟨_, n, gs', ys, ts, hp, hl, rfl⟩ := mutESLogNormal_ok hrun
+  have hgs : gs = n :: gs' := by
+    cases gs with
+    | nil => simp [pop] at hp
+    | cons a b => simp [pop] at hp; rw [hp.1, hp.2]
+  intro u hu
+  rcases lognLoop_strategy_mem _ _ _ _ _ _ _ _ _ _ _ hl u hu with h | ⟨s, hs, z, hz, rfl⟩
+  · obtain ⟨q, rfl, hq⟩ := hpos u h
+    simpa using hq
+  · obtain ⟨q, a, k, rfl, harg, hm⟩ := hmag n gs' hgs s hs z hz
+    exact lognSigma_rounded_pos hA hE hm _ _ z harg
+
+open RoundedOps in
+example : toy.Lawful ∧ toy.LawfulExp ∧
+    (∀ s ∈ (⟨1, [⟨.fin 0⟩, ⟨.fin 5⟩], 3, [⟨.fin 1⟩, ⟨.fin (1 / 4)⟩]⟩ : Ind (XFA toy)).strategy,
+      ∃ q : Rat, s = ⟨.fin q⟩ ∧ 0 < q) ∧
+    (∀ n gs', ([⟨.fin 3⟩, ⟨.fin 1⟩, ⟨.fin (-2)⟩] : List (XFA toy)) = n :: gs' →
+      ∀ s ∈ (⟨1, [⟨.fin 0⟩, ⟨.fin 5⟩], 3, [⟨.fin 1⟩, ⟨.fin (1 / 4)⟩]⟩ : Ind (XFA toy)).strategy, ∀ z ∈ gs',
+      ∃ (q a : Rat) (k : Nat), s = ⟨.fin q⟩ ∧
+      (lognT0 (⟨.fin 0⟩ : XFA toy) (⟨1, [⟨.fin 0⟩, ⟨.fin 5⟩], 3, [⟨.fin 1⟩, ⟨.fin (1 / 4)⟩]⟩ : Ind (XFA toy)).genes.length * n
+        + lognT ⟨.fin 0⟩ (⟨1, [⟨.fin 0⟩, ⟨.fin 5⟩], 3, [⟨.fin 1⟩, ⟨.fin (1 / 4)⟩]⟩ : Ind (XFA toy)).genes.length * z).val
+        = .fin a ∧ lognMag toy.toMag q a k = true) := by
+  have r0 : toyRnd 0 = .fin 0 := by norm_num [toyRnd]
+  have r2 : toyRnd 2 = .fin 2 := by norm_num [toyRnd]
+  have r4 : toyRnd 4 = .fin 4 := by norm_num [toyRnd]
+  have s2 : toySqrt (.fin 2) = .fin (3 / 2) := by norm_num [toySqrt, toyRnd]
+  have s4 : toySqrt (.fin 4) = .fin (5 / 2) := by norm_num [toySqrt, toyRnd]
+  have s3 : toySqrt (.fin 3) = .fin 2 := by norm_num [toySqrt, toyRnd]
+  have t0 : (lognT0 (⟨.fin 0⟩ : XFA toy) 2).val = .fin 0 := by
+    show toy.div (.fin 0) (toySqrt (toy.mul (.fin ((2 : Nat) : Rat)) (.fin ((2 : Nat) : Rat)))) = _
+    have : toy.mul (.fin ((2 : Nat) : Rat)) (.fin ((2 : Nat) : Rat)) = .fin 4 := by
+      show toyRnd (((2 : Nat) : Rat) * ((2 : Nat) : Rat)) = _; norm_num [toyRnd]
+    rw [this, s4]
+    show (if (5 / 2 : Rat) = 0 then XF.nan else toyRnd (0 / (5 / 2))) = _
+    norm_num [toyRnd]
+  have t1 : (lognT (⟨.fin 0⟩ : XFA toy) 2).val = .fin 0 := by
+    show toy.div (.fin 0) (toySqrt (toy.mul (.fin ((2 : Nat) : Rat)) (toySqrt (.fin ((2 : Nat) : Rat))))) = _
+    have e : (((2 : Nat) : Rat)) = 2 := by norm_num
+    rw [e, s2]
+    have : toy.mul (.fin 2) (.fin (3 / 2)) = .fin 3 := by show toyRnd (2 * (3 / 2)) = _; norm_num [toyRnd]
+    rw [this, s3]
+    show (if (2 : Rat) = 0 then XF.nan else toyRnd (0 / 2)) = _
+    norm_num [toyRnd]
+  have arg : ∀ z : Rat, (lognT0 (⟨.fin 0⟩ : XFA toy) 2 * ⟨.fin 3⟩ + lognT ⟨.fin 0⟩ 2 * ⟨.fin z⟩).val = .fin 0 := by
+    intro z
+    show toy.add (toy.mul (lognT0 (⟨.fin 0⟩ : XFA toy) 2).val (.fin 3)) (toy.mul (lognT (⟨.fin 0⟩ : XFA toy) 2).val (.fin z)) = _
+    rw [t0, t1]
+    have m1 : toy.mul (.fin 0) (.fin 3) = .fin 0 := by show toyRnd (0 * 3) = _; rw [zero_mul, r0]
+    have m2 : toy.mul (.fin 0) (.fin z) = .fin 0 := by show toyRnd (0 * z) = _; rw [zero_mul, r0]
+    rw [m1, m2]
+    show toyRnd (0 + 0) = _
+    rw [add_zero, r0]
+  refine ⟨toy_lawful, toy_lawfulExp, ?_, ?_⟩
+  · intro s hs
+    simp only [List.mem_cons, List.not_mem_nil, or_false] at hs
+    rcases hs with rfl | rfl
+    · exact ⟨1, rfl, by norm_num⟩
+    · exact ⟨1 / 4, rfl, by norm_num⟩
+  · intro n gs' hgs s hs z hz
+    simp only [List.cons.injEq] at hgs
+    obtain ⟨rfl, rfl⟩ := hgs
+    simp only [List.mem_cons, List.not_mem_nil, or_false] at hs hz
+    have hm1 : lognMag toy.toMag 1 0 0 = true := by norm_num [lognMag, toy, ln2lo]
+    have hm2 : lognMag toy.toMag (1 / 4) 0 0 = true := by norm_num [lognMag, toy, ln2lo]
+    rcases hs with rfl | rfl <;> rcases hz with rfl | rfl
+    · exact ⟨1, 0, 0, rfl, arg 1, hm1⟩
+    · exact ⟨1, 0, 0, rfl, arg (-2), hm1⟩
+    · exact ⟨1 / 4, 0, 0, rfl, arg 1, hm2⟩
+    · exact ⟨1 / 4, 0, 0, rfl, arg (-2), hm2⟩
+
+open RoundedOps in
+/-- Outside the hypothesis the clause is FALSE for floats (1): whenever the product `s * exp(a)` rounds to `0` —
+`exp(a)` underflowed (binary64: `a < -745.13`) or the strategy is too small (`s = 5e-324`, `a = -1`) — the positive
+strategy becomes `0.0`.  The real code does exactly this (harness stream `xlogn`); recorded reading, not a defect
+inside the statement's domain. -/
+theorem lognormal_underflow_zero (A : Arith) (hA : A.Lawful) (s a e : Rat) (t0n t z : XFA A)
+    (harg : (t0n + t * z).val = .fin a) (hexp : A.exp (.fin a) = .fin e) (hund : A.rnd (s * e) = .fin 0) :
+    (lognSigma (⟨.fin s⟩ : XFA A) t0n t z).val = .fin 0 :=
+  lognSigma_underflow hA t0n t z harg hexp hund
+
+open RoundedOps in
+example : toy.Lawful ∧ ((⟨.fin (-1)⟩ : XFA toy) + ⟨.fin 0⟩ * ⟨.fin 1⟩).val = .fin (-1) ∧
+    toy.exp (.fin (-1)) = .fin (1 / 4) ∧ toy.rnd (1 / 2 ^ 60 * (1 / 4)) = .fin 0 := by
+  have e1 : toy.mul (.fin 0) (.fin 1) = .fin 0 := by show toyRnd (0 * 1) = _; norm_num [toyRnd]
+  have e2 : toy.add (.fin (-1)) (.fin 0) = .fin (-1) := by show toyRnd (-1 + 0) = _; norm_num [toyRnd]
+  refine ⟨toy_lawful, ?_, ?_, ?_⟩
+  · show toy.add (.fin (-1)) (toy.mul (.fin 0) (.fin 1)) = _
+    rw [e1, e2]
+  · show toyExp (.fin (-1)) = _
+    have hc : ⌈-(-1 : Rat) / ln2lo⌉ = 2 := by
+      rw [Int.ceil_eq_iff]; norm_num [ln2lo]
+    simp only [toyExp, hc]
+    have : Int.toNat 2 = 2 := rfl
+    rw [this]
+    norm_num
+  · show toyRnd _ = _
+    norm_num [toyRnd]
+
+open RoundedOps in
+/-- (2): when `exp(a)` overflows (binary64: `a > 709.78`), `math.exp` raises `OverflowError` (`nan` here). -/
+theorem lognormal_overflow_raises (A : Arith) (s a : Rat) (t0n t z : XFA A)
+    (harg : (t0n + t * z).val = .fin a) (hexp : A.exp (.fin a) = .pinf) :
+    (lognSigma (⟨.fin s⟩ : XFA A) t0n t z).val = .nan :=
+  lognSigma_overflow t0n t z harg hexp
+
+open RoundedOps in
+example : ((⟨.fin 42⟩ : XFA toy) + ⟨.fin 0⟩ * ⟨.fin 1⟩).val = .fin 42 ∧ toy.exp (.fin 42) = .pinf := by
+  have e1 : toy.mul (.fin 0) (.fin 1) = .fin 0 := by show toyRnd (0 * 1) = _; norm_num [toyRnd]
+  have e2 : toy.add (.fin 42) (.fin 0) = .fin 42 := by show toyRnd (42 + 0) = _; norm_num [toyRnd]
+  refine ⟨?_, ?_⟩
+  · show toy.add (.fin 42) (toy.mul (.fin 0) (.fin 1)) = _
+    rw [e1, e2]
+  · show toyExp (.fin 42) = _
+    norm_num [toyExp]
 
 /-! ## in place: the operators return the objects they were given, with the same lengths
 
